@@ -1,17 +1,3 @@
-//! Harness binary for the symbol codes (Huffman, Exp-Golomb), the bit-level stack/queue
-//! coders and the word backends.
-
-mod c15;
-mod c16;
-mod c17;
-
-use vengine::{PanicPolicy, Target};
-
 fn main() {
-    let targets = [
-        Target { name: "c15_huffman", props: "C15", policy: PanicPolicy::AllViolations, max_len: 2048, run: c15::c15_huffman },
-        Target { name: "c16_bits", props: "C16 C08 C18 (param selects the oracle)", policy: PanicPolicy::AllViolations, max_len: 1024, run: c16::c16_bits },
-        Target { name: "c17_backends", props: "C17", policy: PanicPolicy::AllViolations, max_len: 1024, run: c17::c17_backends },
-    ];
-    vengine::main(&targets);
+    vengine::main(&h_symbol::targets());
 }
